@@ -38,11 +38,11 @@ CHECKS = {
          "AppendSample is executed below, at and far beyond capacity on windows of larger buffers; after every call value, position, length, unchanged capacity/base address, alias visibility and every other cell of the storage are compared with the model.",
          "Storage re-read through the verif hook.",
          "6/C04"),
- "C01": ("canary-arena monitor over all 169 type pairs x 4 transfer functions with generated shapes and input lengths",
+ "C01": ("canary-arena monitor over all 169 (+7 named-type) transfer pairs x 4 transfer functions with generated shapes and input lengths; cross-process digest comparison",
          "Every generated Write/Read/WriteStriped/ReadStriped call and cross-form round trip runs against a stamped parent arena and sentinel-filled caller slices; positions, values, zero fill, returned frame count, untouched cells and unchanged shape are compared with independently computed expectations.",
          "Values restricted to those exactly representable in both types; oracle arithmetic (C*i+c, integer ceil) independent of the library; arena re-read through the verif hook.",
          "6/C01"),
- "C05": ("two-arena monitor with metamorphic single-sample reference over all 169 conversion instantiations",
+ "C05": ("two-arena monitor with metamorphic single-sample reference over all 169 (+31 named-type) conversion instantiations; cross-process digest comparison (results must not depend on process history)",
          "Every generated conversion call is checked for the common-prefix extent, return value, untouched source/destination remainder and unchanged shapes, and each written position against the same function applied to that sample alone; float->float values against exact preservation / nearest float32.",
          "Position independence uses the library itself as reference on a 1x1 buffer (numeric correctness is C06-C09's subject).",
          "6/C05"),
@@ -54,15 +54,15 @@ CHECKS = {
          "Every guarded entry point is called with every mismatching channel-count / slice-count / capacity combination of the grid on stamped operands; the call must panic and both operands, caller slices and the pool must be bit-identical afterwards.",
          "Panic observed through recover(); operand storage re-read through the verif hook; pool state observed through subsequent Gets.",
          "6/C15"),
- "C06": ("exhaustive / boundary-dense enumeration in amplitude order with an order-and-levels oracle on the real conversions",
+ "C06": ("exhaustive / boundary-dense enumeration in amplitude order (multi-channel window buffers, reverse-order and leading-zero passes, cross-process digests) with an order-and-levels oracle on the real conversions",
          "All 121 fixed->fixed instantiations; every 8/16-bit source value in every tier and every 32-bit source value in the thorough tier (9.4e10 conversions), sampled for 64-bit sources; monotonicity along the ascending enumeration plus the three reference levels.",
          "Amplitude arithmetic in int64 (amplitudes of all supported formats fit); 1-channel buffers of 16384 samples per call.",
          "6/C06"),
- "C07": ("exhaustive / boundary-dense enumeration with exact integer oracle (floor/ceil, identity, widening round trip through two real calls)",
+ "C07": ("exhaustive / boundary-dense enumeration (multi-channel window buffers, reverse-order and leading-zero passes, cross-process digests) with exact integer oracle (floor/ceil, identity, widening round trip through two real calls)",
          "Same enumeration as C06; narrowing results must be floor or ceil of a/2^d, equal depth must be the identity on amplitudes, and every widening pair composed with the library's matching narrowing conversion must return the original code.",
          "Amplitude arithmetic in int64; the round trip uses the library's own inverse instantiation.",
          "6/C07"),
- "C08": ("exhaustive float32 / boundary-dense float64 enumeration with exact 128-bit product oracle cross-checked against big.Rat",
+ "C08": ("exhaustive float32 / boundary-dense float64 enumeration (multi-channel window buffers, reverse-order and leading-zero passes, cross-process digests) with exact 128-bit product oracle cross-checked against big.Rat",
          "All 22 float->fixed instantiations; every non-NaN float32 bit pattern in the thorough tier (4.7e10 conversions), boundary-dense + seeded float64 lists; clipping, zero, linear-within-one-step and monotonicity are decided from the exact product.",
          "Exact product from the float's integer mantissa/exponent; the fast oracle is cross-checked against big.Rat on >=10^4 inputs per run; NaN excluded.",
          "6/C08"),
